@@ -4,6 +4,8 @@
 //     leaf rows: <peer state> <peer dir> <snapshot cached> <snapshot dir> <dir of this connection>
 //     <rc: the re-load finds an entry> <rcdir: direction of that entry>.
 //     reap rows (overlay/reaper.go, reapPeer): <loaded: an entry is cached for the peer> => what happens to it.
+//     watch rows (overlay/transport.go, handleIncoming / handleOutgoing): <dir> <reused flag of reuseConnection> => which
+//     connections get a close-watcher that calls reapPeer: the returned one, the negotiated one when another was returned.
 //  2. sched: every maximal interleaving of one dial / two simultaneous dials (snapshot, decide, reap steps) from every
 //     consistent pre-existing cache state, executed by a simulator over the CURRENT rows; the driver compares the
 //     final state with the Lean model and judges it against the property. Step labels: s/d/r + Pc|Qc|Qd|Pd
@@ -15,8 +17,10 @@
 //     negotiation ends of their side — an end can report CACHED and find the entry gone when it decides).
 //     A state is final when no s/d/r/e step is enabled; stale reaps and the death of e are optional environment
 //     events, every final state on the way is reported.
-//  3. live (see live.go): two real overlay.QUIC transports on loopback: simultaneous dials, and
-//     connect / connection dies / reconnect the other way round / late second reap of the dead connection.
+//  3. live (see live.go): two real overlay.QUIC transports on loopback: simultaneous dials,
+//     connect / connection dies / reconnect the other way round / late second reap of the dead connection, and
+//     redial: the peers share a cached connection and one of them dials a further one (real handleOutgoing, real accept
+//     loop + handleIncoming, nothing else happens): afterwards the shared connection must still be alive and cached.
 //  4. win (see window.go): two real transports that cache a shared connection negotiate a further one over relayed
 //     negotiation streams, so that the harness executes chosen interleavings of the model (the cached connection dies
 //     and is reaped between an end's CACHED report and its decision, …) with the real reuseConnection / reapPeer.
@@ -38,10 +42,12 @@ type act struct {
 }
 
 type reapAct struct{ del, closeCached, closeTrigger bool }
+type watchAct struct{ returned, negotiated bool }
 
 var snapRows = map[string][2]string{}
 var leafRows = map[string]act{}
 var reapRows = map[string]reapAct{}
+var watchRows = map[string]watchAct{}
 var tableLines []string
 
 func srcPath(rel string) string {
@@ -62,7 +68,7 @@ func loadTable() error {
 	if exe == "" {
 		exe = "/verif/build/extract"
 	}
-	out, err := exec.Command(exe, "c41-lines", srcPath("overlay/reuse.go"), srcPath("overlay/reaper.go")).CombinedOutput()
+	out, err := exec.Command(exe, "c41-lines", srcPath("overlay/reuse.go"), srcPath("overlay/reaper.go"), srcPath("overlay/transport.go")).CombinedOutput()
 	if err != nil {
 		return fmt.Errorf("extract c41-lines: %v: %s", err, out)
 	}
@@ -115,10 +121,22 @@ func loadTable() error {
 				}
 			}
 			reapRows[strings.Join(t[1:], " ")] = a
+		case "watch":
+			a := watchAct{}
+			for _, kv := range strings.Split(parts[1], ",") {
+				p := strings.SplitN(kv, "=", 2)
+				switch p[0] {
+				case "returned":
+					a.returned = p[1] == "true"
+				case "negotiated":
+					a.negotiated = p[1] == "true"
+				}
+			}
+			watchRows[strings.Join(t[1:], " ")] = a
 		}
 	}
-	if len(reapRows) != 2 || len(snapRows) == 0 || len(leafRows) == 0 {
-		return fmt.Errorf("incomplete table (%d snap, %d leaf, %d reap rows)", len(snapRows), len(leafRows), len(reapRows))
+	if len(reapRows) != 2 || len(watchRows) != 4 || len(snapRows) == 0 || len(leafRows) == 0 {
+		return fmt.Errorf("incomplete table (%d snap, %d leaf, %d reap, %d watch rows)", len(snapRows), len(leafRows), len(reapRows), len(watchRows))
 	}
 	return nil
 }
@@ -135,7 +153,9 @@ type proc struct {
 	snap   entry
 	status [2]string
 	res    string
-	reaped bool
+	// the end started a close-watcher (-> reapPeer) for the connection it negotiated / that watcher has run
+	watched bool
+	reaped  bool
 }
 
 type state struct {
@@ -239,7 +259,7 @@ func (s *state) enabled(l label) bool {
 	case 'd':
 		return s.p[i].pc == 1 && s.p[procPeer[i]].pc != 0
 	case 'r':
-		return s.p[i].pc == 2 && s.p[i].res == "fresh" && !s.p[i].reaped && s.closed[procConn[i]] != 0
+		return s.p[i].pc == 2 && s.p[i].watched && !s.p[i].reaped && s.closed[procConn[i]] != 0
 	case 'e':
 		return s.watch[i] && s.closed["e"] != 0
 	case 'l':
@@ -336,7 +356,19 @@ func (s *state) step(l label) {
 		if res == "err" && procDir[i] == "incoming" {
 			s.close(procConn[i], 'n')
 		}
-		s.p[i] = proc{pc: 2, status: me.status, res: res}
+		// which close-watcher handleIncoming / handleOutgoing start: for the returned connection, or for the negotiated
+		// one when another connection was returned
+		w := watchRows[procDir[i]+" "+b(a.reused)]
+		watched := false
+		switch {
+		case res == "fresh":
+			watched = w.returned
+		case res != "err" && cv.conn == procConn[i]:
+			watched = w.returned
+		case res != "err":
+			watched = w.negotiated
+		}
+		s.p[i] = proc{pc: 2, status: me.status, res: res, watched: watched}
 	case 'r':
 		s.reapPeer(procSide[i], procConn[i], s.closed[procConn[i]])
 		s.p[i].reaped = true
@@ -457,6 +489,11 @@ func emitSched(r *hlib.Run, dual bool, pr pre, steps []string, s *state) {
 	if s.win {
 		r.Count("sched:entry-reported-CACHED-gone-at-decision")
 	}
+	for i := range s.p {
+		if s.p[i].pc == 2 && s.p[i].watched && s.p[i].res != "fresh" {
+			r.Count("sched:close-watcher-on-a-connection-that-was-not-stored")
+		}
+	}
 	r.Count("sched:dual=" + d)
 }
 
@@ -528,6 +565,7 @@ func main() {
 		// the decision code is no longer in the shape the extractor understands
 		r.Emit("table", "unreadable:"+strings.ReplaceAll(err.Error(), " ", "_"))
 		// the scenarios with real transports do not need the table
+		redial(r, 2)
 		relive(r, 2)
 		win(r, winPlans())
 		live(r, 6)
@@ -544,7 +582,7 @@ func main() {
 					steps = nil
 				}
 				emitSched(r, t[1] == "1", pr, steps, runSteps(t[1] == "1", pr, steps))
-			case "snap", "leaf", "reap":
+			case "snap", "leaf", "reap", "watch":
 				for _, l := range tableLines {
 					if strings.HasPrefix(l, strings.Join(t, " ")+" => ") {
 						p := strings.SplitN(l, " => ", 2)
@@ -555,6 +593,8 @@ func main() {
 				live(r, 1)
 			case "relive":
 				relive(r, 1)
+			case "redial":
+				redialOne(r, t[1] == "e:out")
 			case "win":
 				win(r, []winPlan{{t[1] == "e:out", strings.Split(t[3], ",")}})
 			}
@@ -614,6 +654,7 @@ func main() {
 	if r.Thorough() {
 		nre = 10
 	}
+	redial(r, nre)
 	relive(r, nre)
 	// real transports, relayed negotiation: the cached connection dies before / between / after the snapshots and the
 	// decisions of a further negotiation
@@ -658,7 +699,7 @@ func (s *state) key() string {
 	k := s.String()
 	for i := 0; i < 4; i++ {
 		p := s.p[i]
-		k += fmt.Sprintf("|%d/%s/%s/%s", p.pc, entryTok(p.snap), p.status[0], p.status[1])
+		k += fmt.Sprintf("|%d/%s/%s/%s/%v", p.pc, entryTok(p.snap), p.status[0], p.status[1], p.watched)
 	}
 	return k + fmt.Sprintf("|%v%v%v", s.watch, s.late, s.die)
 }
